@@ -625,6 +625,39 @@ def hist_work(arg):
     return n, dict(counts), viols
 
 
+def registry_check():
+    """decoding with a caller-supplied registry (what load_persistant does when type ids moved between builds): the registry
+    in effect decides the class at EVERY position - top level, items, set members, map keys and values, fields.  A registry
+    that swaps look-alike classes must turn f(x) into f(y); an identical copy of the process registry changes nothing."""
+    from mpgameserver.serializable import SerializableType
+    same = dict(SerializableType.registry)
+    swap = dict(same)
+    for a, b in ((C13Color, C13Shape), (C13One, C13Uno)):
+        swap[a.type_id], swap[b.type_id] = b, a
+    pairs = [(C13Color.RED, C13Shape.SQUARE), (C13Shape.CIRCLE, C13Color.GREEN), (C13One(x=1), C13Uno(x=1)), (C13Uno(x=C13Color.RED), C13One(x=C13Shape.SQUARE))]
+    places = [("top level", lambda x: x), ("list item", lambda x: [0, x]), ("tuple item", lambda x: (x, "t")), ("set member", lambda x: {x}), ("set member next to others", lambda x: {x, "s", 5}),
+              ("map key", lambda x: {x: 1}), ("map value", lambda x: {"k": x}), ("map key and value", lambda x: {x: x}), ("class field", lambda x: C13Three(a=x, b=None, c=[x])),
+              ("set member inside a class field", lambda x: C13Three(a={x}, b={x: 0}, c=None)), ("map key inside a list", lambda x: [{x: [x]}]), ("set inside a map value", lambda x: {"k": {x}})]
+    out = []
+    n = 0
+    for x, y in pairs:
+        for pname, f in places:
+            try:
+                vx, vy = f(x), f(y)
+            except TypeError:
+                continue      # unhashable at this position: not a value of the grammar
+            for rname, reg, want in (("a registry that swaps two look-alike classes", swap, vy), ("a copy of the process registry", same, vx)):
+                n += 1
+                try:
+                    got = deserialize_value(io.BytesIO(encode(vx)), registry=reg)
+                except Exception as e:
+                    out.append(("decode-raises", "decoding with %s raises: %s at %s" % (rname, type(x).__name__, pname), "%r: %r" % (vx, e)))
+                    continue
+                if canon(got) != canon(want):
+                    out.append(("round-trip", "decoding with %s does not honour it at: %s" % (rname, pname), "encoded %.60r, decoded %.60r, expected %.60r" % (vx, got, want)))
+    return n, out
+
+
 def describe(v, label):
     """specific class of the failing value (for known-finding matching)"""
     def has_tuple_key(x):
@@ -714,6 +747,11 @@ def run(tier, seed):
                 acc[key] = [0, wit, msg[:600]]
             acc[key][0] += cnt
     total += n_hist
+    # a caller-supplied registry
+    n_reg, bad_reg = registry_check()
+    total += n_reg
+    for bad in bad_reg:
+        acc.setdefault((bad[0], bad[1]), [0, {"family": "registry"}, bad[2][:300]])[0] += 1
     # out of domain
     ood = 0
     for v, label in out_of_domain():
@@ -764,6 +802,9 @@ def replay(witness):
     if witness.get("family") == "history":
         bad = hist_run(witness["ops"], [])
         return [core.Violation(bad[0], bad[1], witness, bad[3][:600])] if bad else []
+    if witness.get("family") == "registry":
+        n, bads = registry_check()
+        return [core.Violation(b[0], b[1], witness, b[2][:300]) for b in bads]
     if witness.get("family") == "reuse":
         n, bads = check_reuse()
         return [core.Violation(b[0], b[1], witness, b[2][:300]) for b in bads]
